@@ -75,20 +75,28 @@ THEOREMS = [
     "KrroodVerif.Eql.C10N_forall_early_exit",
     "KrroodVerif.Eql.C10N_forall_stops",
     "KrroodVerif.Eql.C10N_forall_step",
+    "KrroodVerif.Eql.C10N_never_pulls_bound",
+    "KrroodVerif.Eql.C10N_body_never_pulls_quantified",
+    "KrroodVerif.Eql.C10N_forall_early_exit_pulled",
+    "KrroodVerif.Eql.C10N_pull_in_range",
+    "KrroodVerif.Eql.C10N_pulled_le_domain",
 ]
 MODEL_FUNCTION = ("Eql.traceQuery / Eql.traceE / Eql.uptoRow / Eql.pulled (Model/EqlTrace.lean); Eql.traceExistsRoot / "
-                  "Eql.traceForAllRoot (Model/EqlTraceQ.lean)")
+                  "Eql.traceForAllRoot (Model/EqlTraceQ.lean); Eql.traceN / Eql.traceQueryN / Eql.existsWalkN / "
+                  "Eql.traceForAllN (Model/EqlTraceN.lean: quantifiers in any position)")
 TRUSTED = [
     "Lean 4.33 kernel; axioms of each theorem listed under coverage.theorems",
     "hand-written trace model Model/EqlTrace.lean (continuation-passing transcription of symbolic.py evaluation)",
+    "hand-written Model/EqlTraceN.lean (Exists / ForAll in any position as walks over the child's event stream; "
+    "validated per run: pull counts per domain and per k equal to the real engine's on every sampled query)",
     "this correspondence harness (logging generators / attribute access), the S-expression driver",
 ]
 ASSUMPTIONS = [
     "CPython generator protocol: a suspended generator performs no work until next() is called",
-    "queries are tree-shaped; quantifiers occur at the root of the condition over a quantifier-free body (Model/EqlTraceQ.lean: "
-    "exists streams, for_all stops pulling once no candidate is left) or not at all",
+    "queries are tree-shaped; quantifiers may occur anywhere below and_/or_/not_ and below each other (Model/EqlTraceN.lean)",
 ]
-RULE = ("corpus, then random root-level exists/for_all over quantifier-free bodies and random quantifier-free condition trees (depth<=3, 1-3 variables, int/object domains as one-shot "
+RULE = ("corpus, then quantifiers below and_/or_/not_ and inside other quantifiers (hand-shaped positions + the shared "
+        "generator's quantified trees), random root-level exists/for_all over quantifier-free bodies and random quantifier-free condition trees (depth<=3, 1-3 variables, int/object domains as one-shot "
         "logging generators); each query is rebuilt and consumed for every k in 0..n+1; non-trivial = the query has "
         ">=2 results and some domain is not fully pulled at k=1; distinct by case text")
 
